@@ -20,7 +20,9 @@ RULE = ('Hypothesis-generated histories: 1-4 coroutine scripts whose steps are (
         'process dt / the three calls on non-generators / forget i (harness drops its strong references, keeps '
         'weakrefs). Oracle: reference model per generator (TERMINATED | ACTIVE | PAUSED(remaining), script '
         'position, expected promise value) stepped alongside; the execution log is validated entry by entry, '
-        'state()/promise.state compared after every external step and at every in-body query. Non-trivial = a '
+        'state()/promise.state compared after every external step and at every in-body query. '
+        'In ~10% of the cases every script exists in 90-200 copies (waits scaled differently), external start / kill act on the copies (kills spare every fifth) and ten closing frames follow. '
+        'Non-trivial = a '
         'kill followed by a start of the same generator with no process in between, or a kill/start issued from '
         'inside a body, or a kill of a paused coroutine. Distinct = sha1 of canonical JSON.')
 ASSUMPTIONS = [
